@@ -791,6 +791,16 @@ func (x *Exec) selectInstr(st *State, fr *Frame, i *ssa.Select, set func(Value))
 	// select with default: each ready case or the default may be taken. A send on a buffered channel is
 	// ready iff the buffer has room (cap == 0: ready iff a receiver waits, unknown here); the default is
 	// taken only if no case is ready.
+	// "site select assert e": e holds at every select statement of the unit; blocking says whether the select
+	// has no default case, selects(ch) whether ch is one of the channels it waits on
+	if x.contract != nil && x.contract.Directives["site"] != nil && len(st.frames) > 0 && fr == st.frames[0] {
+		x.curSelect = i
+		x.siteAsserts(st, fr, "select", "", map[string]TV{"blocking": {VScalar{BoolLit(i.Blocking)}, types.Typ[types.Bool]}})
+		x.curSelect = nil
+		if st.dead {
+			return
+		}
+	}
 	n := len(i.States)
 	choice := x.sym.Fresh("select.choice", SInt)
 	lowest := int64(-1)
